@@ -164,7 +164,7 @@ RdVal(f, kind, i, fe, lim, pv) ==
        ELSE LET b == DecStr(f, a.next, fe, lim, TRUE) IN
             IF ~b.ok THEN b
             ELSE OkF(<<a.val, b.val>>, b.next,
-                     FM("str", i, a.next - 1, pv) \o FM("str", a.next, b.next - 1, TRUE))
+                     FM("str", i, a.next - 1, pv) \o FM("str2", a.next, b.next - 1, TRUE))      \* str2: the second string of a pair
 
 RECURSIVE PropLoop(_, _, _, _, _, _, _, _)
 PropLoop(f, fe, lim, ctx, i, seen, out, fm) ==
@@ -347,13 +347,23 @@ Verdict(f) ==
 (***************************************************************************)
 InteriorCuts(fm) ==
   UNION { (IF x.pv THEN {x.s - 1} ELSE {}) \cup
-          (IF x.k \in {"u16", "u32", "str", "vbi"} THEN x.s..(x.e - 1) ELSE {}) : x \in SeqRange(fm) }
+          (IF x.k \in {"u16", "u32", "str", "str2", "vbi"} THEN x.s..(x.e - 1) ELSE {}) : x \in SeqRange(fm) }
 
 (* for long fields: the first and last interior positions only *)
 CutSample(fm) ==
   UNION { (IF x.pv THEN {x.s - 1} ELSE {}) \cup
-          (IF x.k \in {"u16", "u32", "str", "vbi"}
+          (IF x.k \in {"u16", "u32", "str", "str2", "vbi"}
            THEN {x.s, x.s + 1, x.s + 2, x.e - 2, x.e - 1} \cap (x.s..(x.e - 1)) ELSE {}) : x \in SeqRange(fm) }
+
+(* Where a decoder that reads the body field by field starts its reads: the offset (from the start of the body) of every *)
+(* entry of the field map - a user property pair is one read, every reason code of a SUBACK / UNSUBACK list is one, an   *)
+(* empty PUBLISH payload is none.  The guarded reads of the library (hook H2) are compared with this set (drift only:   *)
+(* a decoder may read in another pattern and still satisfy every property).                                            *)
+FieldStarts(fm, hdr, t) ==
+  UNION { IF x.k = "str2" THEN {}
+          ELSE IF x.k = "raw" /\ t \in {9, 11} THEN {j - hdr - 1 : j \in x.s..x.e}
+          ELSE IF x.k = "raw" /\ x.e < x.s THEN {}
+          ELSE {x.s - hdr - 1} : x \in SeqRange(fm) }
 
 (* the frame that ends after index c of f (c >= hdr), remaining length adjusted *)
 Reframe(f, hdr, c) == <<f[1]>> \o VBI(c - hdr) \o SubSeq(f, hdr + 1, c)
